@@ -12,10 +12,11 @@ RULE = ("call sequences of 1-14 steps drawn from an evolving fake kernel: 1-4 de
         "/proc/net/dev and /proc/diskstats); per step every counter goes up, stays, goes backwards (to a smaller value or 0), "
         "devices vanish / reappear / all vanish, cache_clear(name) / cache_clear() are interleaved, nowrap and pernic/perdisk "
         "alternate, two function names are interleaved; values include 2^32-1, 2^64-1, 10^20; steps are executed on two real "
-        "threads in a scripted alternation, two free-running threads drive the two names concurrently, and two-thread schedules "
-        "(rounds of solo call | clear | two overlapping calls whose wrap steps come in either order; the platform read is replaced "
-        "by a scripted kernel and is the pre-emption point; monotone and wrapping kernels) are replayed deterministically. Malformed part: "
-        "tuples changing width (IndexError). Exhaustive part: all sequences over one device x 1 counter with readings "
+        "threads in a scripted alternation, two free-running threads drive the two names concurrently, and three-thread schedules "
+        "over both functions (rounds of solo call | clear | two overlapping calls whose wrap steps come in either order, while a third "
+        "thread clears a cache or makes a nowrap=False call between the platform reads and the wrap steps; the platform read is replaced "
+        "by a scripted kernel and is the pre-emption point; monotone and wrapping kernels) are replayed deterministically. Width part: "
+        "tuples that shrink (answered) or grow (IndexError) under one name, judged against the total specification. Exhaustive part: all sequences over one device x 1 counter with readings "
         "{absent,0,1,2} and cache_clear. A case is non-trivial when it has at least two nowrap=True calls under one name; "
         "distinct = distinct canonical case hash.")
 TRUSTED = ["correspondence harness props/C10.py + pv/ (fake /proc/net/dev, /proc/diskstats, /sys/block through pv.shim, thread hand-off)",
@@ -24,8 +25,12 @@ TRUSTED = ["correspondence harness props/C10.py + pv/ (fake /proc/net/dev, /proc
 ASSUMPTIONS = ["run() and cache_clear() are atomic (they execute under _WrapNumbers.lock); a nowrap=True public call holds "
                "_nowrap_lock from its platform read to the end of its wrap step (commit 3202409) -- the locks themselves are "
                "exercised by the threaded cases, not proved",
-               "two threads: a cache_clear() overlapping a nowrap=True call in flight may be ordered either way and is left out of "
-               "the two-thread theorem and of the generated schedules",
+               "threads: pre-emption is modelled between the platform read and the wrap step of a call (the wrap step and cache_clear "
+               "are atomic under _wn.lock; presentation works on the thread's own dict); overlapping operations may take effect in "
+               "either order (linearisation at the wrap step)",
+               "direct API: what a call sequence does AFTER a caught IndexError (tuple longer than its predecessor) is outside the model "
+               "(the reminders are then partially updated; witness in notes/design/C10.md); unreachable through the public functions",
+               "cache_info() returns the live dicts, not copies; the observation is what they show at the call",
                "the three dicts of _WrapNumbers are keyed by the same names (modelled as one map; checked on every cache_info())",
                "CPython dict/defaultdict/set/int semantics are modelled, not verified",
                "device present = key present in the dict passed under that name (alternating perdisk changes the key set: observation)"]
@@ -849,20 +854,26 @@ def impl_run(case, coq, env):
 
 
 MANIFEST = {
-    "text": "Theorems (Coq, closed under the global context) about the model of _WrapNumbers and its two callers: for EVERY sequence of "
-            "wrap_numbers(dict, name) / cache_clear(name) / cache_clear() calls with unique keys and one tuple width per name, each answer is, "
-            "per device and counter, raw + the sum of the earlier readings at each decrease inside the device's current presence run since the "
-            "last clear (ghost history per name), no call fails; corollaries: monotone for non-negative counters, reappearing device starts "
-            "afresh, clear forgets, first call raw, names are independent (frame), nowrap=False is raw and leaves the state alone. For the "
-            "public functions (code after the repair e278b23) the same holds for EVERY sequence, including listings with no device at all "
-            "(a device coming back after every device had gone starts afresh); the code before the repair is refuted with a witness "
-            "(fixed finding nowrap-empty-snapshot, replayed from corpus/C10 on every run). Two threads with every call split into platform "
-            "read and wrap step: under _nowrap_lock (3202409) every schedule answers what the raw kernel readings in read order demand; "
-            "without the lock a witness schedule answers 350 for a reading of 150 (fixed finding read-outside-lock, replayed from corpus/C10 "
-            "with real threads and a pre-empting platform read). The model is tied to the code "
-            "by running the real psutil (direct API and public API over generated /proc/net/dev, /proc/diskstats) on generated and exhaustively "
-            "enumerated sequences, on two scripted alternating threads and two free-running threads, comparing every answer and cache_info().",
+    "text": "Theorems (Coq, closed under the global context) about the model of _WrapNumbers and its two callers. Direct API: for EVERY "
+            "sequence of wrap_numbers(dict, name) / cache_clear(name) / cache_clear() calls with unique keys and one tuple width per name, "
+            "each answer is, per device and counter, raw + the sum of the earlier readings at each decrease inside the device's current "
+            "presence run since the last clear (ghost history per name), no call fails; corollaries: monotone for non-negative counters, "
+            "reappearing device starts afresh, clear forgets, first call raw, names are independent (frame), nowrap=False is raw and leaves "
+            "the state alone; cache_info() shows exactly the ghost state (last snapshot, accumulated offsets, index of non-zero offsets). "
+            "Without the width hypothesis a total theorem gives the answers of every sequence up to the first exception (shrinking tuples "
+            "answered, a growing tuple raises IndexError). Public functions (code after the repairs e278b23, 3202409): the demanded answers "
+            "for EVERY sequence, including listings with no device (a device coming back after every device had gone starts afresh) and "
+            "cache_clear forgetting all history; the code before e278b23 is refuted with a witness. Threads: every call split into platform "
+            "read and wrap step, ANY number of threads, both functions, cache_clear at any point (also between the read and the wrap step of "
+            "a call in flight): every schedule is linearised (calls at their wrap step) and answers what the sequential specification demands "
+            "on that history; under _nowrap_lock the nowrap=True listings enter the history in the order they were read from the kernel; "
+            "after a clear the next nowrap=True answer of that function is raw in every interleaving; without the lock a witness schedule "
+            "answers 350 for a reading of 150 (fixed finding read-outside-lock). The model is tied to the code by running the real psutil "
+            "(direct API and public API over generated /proc/net/dev, /proc/diskstats) on generated and exhaustively enumerated sequences, on "
+            "two scripted alternating threads, two free-running threads, and three real threads with a pre-empting scripted platform read, "
+            "comparing every answer and cache_info().",
     "note": "Trusted: Coq kernel + vm_compute; hand-written model coq/C10/Model.v (tied by the correspondence run only); the ghost "
-            "specification coq/C10/Spec.v; harness; CPython builtins and threading.Lock. Atomicity of run()/cache_clear() is an assumption "
-            "of the model (the lock), exercised but not proved. Proof covers the model, sampling covers model-vs-code.",
+            "specification coq/C10/Spec.v and the linearisation reading of concurrent executions; harness; CPython builtins and threading.Lock. "
+            "Atomicity of run()/cache_clear() and of read+wrap under _nowrap_lock is an assumption of the model (the locks), exercised but "
+            "not proved. Proof covers the model, sampling covers model-vs-code.",
 }
